@@ -51,6 +51,25 @@ func runCLI(bin string, args ...string) cliResult {
 	return cliResult{so.String(), se.String(), code}
 }
 
+// c18BulkData: the nodes of g followed by filler nodes (class ex.Filler, 1 KiB literals) up to at least size bytes.
+func c18BulkData(g *lib.Graph, size int) string {
+	h := lib.NewGraph()
+	for _, n := range g.Nodes {
+		nn := h.AddNode(n.ID, n.Types...)
+		nn.Props = n.Props
+	}
+	lit := strings.Repeat("0123456789abcdef", 64)
+	for k := 0; k*1100 < size; k++ {
+		f := h.AddNode(fmt.Sprintf("%sfiller/%d", lib.EX, k), lib.EX+"Filler")
+		f.Add(lib.EX+"blob", lib.StrV(lit))
+	}
+	d := h.CanonicalJSONLD()
+	if len(d) < size {
+		panic("c18BulkData: too small")
+	}
+	return d
+}
+
 func c18Pairs(seed int64, n int) [][2]string {
 	var out [][2]string
 	// percent signs, quotes and placeholders in everything the CLI prints
@@ -75,6 +94,12 @@ func c18Pairs(seed int64, n int) [][2]string {
 		}
 	}
 	out = append(out, [2]string{c05Profiles()[1].Text(), c09HugeDoc(400)}) // ~300 KiB report
+	// input FILES of 64 KiB to 4.5 MiB (around the usual buffer sizes) with a small report: filler nodes of another class
+	// after the one target node; and a profile file above 1 MiB (comment lines)
+	for _, size := range []int{1 << 16, 1<<20 - 1, 1<<20 + 1, 3 << 19, 9 << 19} {
+		out = append(out, [2]string{pct.Text(), c18BulkData(g, size)})
+	}
+	out = append(out, [2]string{pct.Text() + strings.Repeat("# "+strings.Repeat("filler ", 18)+"\n", 9000), g.CanonicalJSONLD()})
 	wp, wg := c10WideProfile()
 	out = append(out, [2]string{wp.Text(), wg.CanonicalJSONLD()})
 	out = append(out, [2]string{c14Profile().Text(), lib.SourceMapDoc()}, [2]string{c17GoodProfile, "{}"}, [2]string{c17GoodProfile, c11GoodData})
@@ -90,10 +115,10 @@ func c18Pairs(seed int64, n int) [][2]string {
 // failures give a non-zero exit status and no report on stdout.
 func c18(tier string) {
 	ctx := lib.NewCtx("C18", tier)
-	ctx.Rule = "(profile, data) pairs (reports from 1 KiB to >300 KiB; percent signs, quotes and placeholders in names, messages and node ids; source maps; conforming and non-conforming) x sub-commands validate (stdout and file), generate, normalize, compile x prior states of the output path (absent, empty, shorter, longer garbage, a previous longer report, equal length, read-only, directory, dangling symlink, symlink to a file, missing parent directory) and sequences long -> short -> long into one file; the library's answer is computed by a fresh harness process (generated names are numbered per process), dateCreated is required to parse as RFC 3339 and masked on both sides, nothing else is masked; failure classes: missing/extra arguments, unknown command, unreadable paths, malformed profile, malformed data, injected ENOSPC on the output file; " +
+	ctx.Rule = "(profile, data) pairs (reports from 1 KiB to >300 KiB; data files from 64 KiB to 4.5 MiB around the 1 MiB mark and a 1.2 MiB profile file; percent signs, quotes and placeholders in names, messages and node ids; source maps; conforming and non-conforming) x sub-commands validate (stdout and file), generate, normalize, compile x prior states of the output path (absent, empty, shorter, longer garbage, a previous longer report, equal length, read-only, directory, dangling symlink, symlink to a file, missing parent directory) and sequences long -> short -> long into one file; the library's answer is computed by a fresh harness process (generated names are numbered per process), dateCreated is required to parse as RFC 3339 and masked on both sides, nothing else is masked; failure classes: missing/extra arguments, unknown command, unreadable paths, malformed profile, malformed data, injected ENOSPC on the output file; " +
 		"non-trivial & distinct = (pair, sub-command, prior state) whose expected output is a non-empty report / policy / normalised input"
 	ctx.Assumptions = []string{"stdout carries the output followed by exactly one newline (Println); the file holds exactly the report", "the check runs as root: a read-only output file is writable, it must then hold exactly the report"}
-	n := ctx.N(24, 120)
+	n := ctx.N(32, 120)
 	ctx.NoDebugWorkers = true
 	if !ctx.IsShard() {
 		ctx.RunShards()
